@@ -197,3 +197,40 @@ def writer_chains(lines):
             evs.append({"ev": "op", "k": k, "op": op})
         out.append(evs)
     return out
+
+
+def server_events(lines):
+    """marker events of one execution -> events for T_ServerLife (the life of the listening socket)"""
+    out = [{"ev": "Reset"}]
+    dropping = False
+    nconn = 0
+    for l in lines:
+        if '"ev":"mark"' in l:
+            if '"m":"srv.' not in l and '"m":"net.connect"' not in l:
+                continue
+            e = json.loads(l)
+            m = e["m"]
+            if m == "net.connect":
+                if dropping and e["th"] == "main":
+                    out.append({"ev": "wakeconn", "ok": bool(e["ok"])})
+                else:
+                    nconn += 1
+                    if nconn > 80:
+                        return None       # more clients than the trace configuration names
+                    out.append({"ev": "connect", "ok": bool(e["ok"])})
+            elif m == "srv.check":
+                out.append({"ev": "check"})
+            elif m == "srv.accept":
+                if not e["ok"]:
+                    return None           # accept() itself failed: not modelled
+                out.append({"ev": "accept"})
+            elif m == "srv.exit":
+                out.append({"ev": "exit"})
+            elif m == "srv.flag":
+                out.append({"ev": "flag"})
+        elif '"ev":"ServerDrop"' in l and '"ev":"ServerDropped"' not in l:
+            dropping = True
+        elif '"ev":"ServerDropped"' in l:
+            dropping = False
+            out.append({"ev": "dropped"})
+    return out
